@@ -101,7 +101,14 @@ CLAIMED = {
              "elsewhere); C17_date_small_day (days 1..28, ALL integer years and months: TypeError exactly when "
              "February of a normalised year <= 0 is reached, else #NUM!/60.0/serial day); C17_yearfrac_symmetric "
              "(all integer dates, every basis value: the code orders the dates first; for basis 1 the common "
-             "computation is the untranslated yearfrac_basis_1 = Unmodelled on both sides). PARTIAL: "
+             "computation is the untranslated yearfrac_basis_1 = Unmodelled on both sides) and "
+             "C17_yearfrac_wrapped_symmetric (through the decorator wrapper, integer or missing basis); "
+             "C17_date_month_carry (DATE(y, m+12k, d) = DATE(y+k, m, d) on the generated code for ALL integer "
+             "m, d, k, years in 1900..9999); C17_day_carry_overflow (the forward carry past 9999-12-31 is #NUM!) "
+             "and C17_months_out_of_calendar (EDATE/EOMONTH with a target before 1899 or after 9999 are #NUM!); "
+             "C17_day_borrow_defect (the known finding as a theorem: for -27 <= d <= 0 and a month from 1900-04 "
+             "on, DATE(y,m,d) is off from DATE(y,m,1)+d-1 by exactly days_in_month(m) - days_in_month(m-1)). "
+             "PARTIAL: "
              "C17_date_total_partial (no exception: DATE with any year, month >= -11000, |day| <= 25000; EDATE/"
              "EOMONTH with any serial number, shift >= -10000 — beyond these bounds the model and the "
              "implementation DO raise: TypeError from is_leap_year(year <= 0), RecursionError/OutOfFuel for "
